@@ -242,6 +242,19 @@ def corpus():
     b["cs"][-1]["data"] = ("DATA", b"")
     h = _reg(genb.ref_bundle(b)[0], b, True)
     out.append(line(["MK " + h, "FROM 0", "PAYLOAD 1", "PAYLOAD 1", "BFREE 2", "BFREE 3", "BNDFREE 1", "DROP 0"]))
+    # a complete valid bundle followed by more bytes, and definite-length outer arrays announcing far more blocks than follow
+    # (after a primary block that decodes): NULL, never an abort (capacity overflow / allocation failure) and never a "valid" bundle
+    for nb in (0, 2):
+        vb = valid_bundle(rng, nblocks=nb, crc_kind=rng.randrange(3))
+        raw = genb.ref_bundle(vb)[0]
+        for tail in (b"\x00", b"\xff", raw, b"\x9f\xff", b"\xf6" * 3):
+            out.append(line(["MK " + _reg(raw + tail, None, False), "FROM 0", "DROP 0"]))
+        body = raw[1:-1]
+        for hd in (b"\x9b" + b"\xff" * 8, b"\x9b\x80" + b"\x00" * 7, b"\x9b\x00\x00\x00\x01" + b"\x00" * 4, b"\x9a\xff\xff\xff\xff", b"\x99\xff\xff",
+                   bytes([0x80 + nb + 3]), b"\x98\x40"):
+            out.append(line(["MK " + _reg(hd + body, None, False), "FROM 0", "DROP 0"]))
+        # the honest definite-length form of the same bundle is a valid bundle
+        out.append(line(["MK " + _reg(bytes([0x80 + nb + 2]) + body, vb, True), "FROM 0", "VALID 1", "TOCBOR 1", "BFREE 2", "BNDFREE 1", "DROP 0"]))
     # invalid bundles -> NULL
     for _ in range(6):
         out.append(line(["MK " + buf_invalid(rng), "FROM 0", "DROP 0"]))
